@@ -89,7 +89,7 @@ class Spec(PropSpec):
     props_file = "C03.v"
     theorems = ["c03_never_delivered", "c03_inflight_dropped", "c03_state_invariant",
                 "c03_reverse_untouched", "c03_other_links_untouched", "c03_topology_refines_link",
-                "c03_topology_projects", "c03_topology_never_delivered", "c03_topology_only_sent", "c03_topology_nonvacuous",
+                "c03_topology_projects", "c03_topology_never_delivered", "c03_topology_only_sent", "c03_fresh_after_registration", "c03_topology_nonvacuous",
                 "c03_flows_again", "c03_model_matches_enums", "c03_nonvacuous"]
     consts = LINK_CONSTS
     anchors = LINK_ANCHORS
